@@ -39,7 +39,7 @@ CONFIG = {
 
 def generate(rng: random.Random, tier: str, seed: int) -> dict:
     base = gen.gen_pipeline(rng)
-    return {"base": base, "sub_seed": rng.getrandbits(32), "only": None}
+    return {"base": base, "sub_seed": rng.getrandbits(32), "only": None, "remote_exec": rng.random() < 0.3}
 
 
 def _digest(obj) -> str:
@@ -50,6 +50,7 @@ def execute(sc: dict, seed: int) -> dict:
     base = sc["base"]
     rng = random.Random(sc["sub_seed"])
     w = SimWorld(seed, lane="c06")
+    w.remote_exec = bool(sc.get("remote_exec"))
     stats: dict = {}
     viols: list[dict] = []
     nontrivial: list[str] = []
@@ -115,6 +116,8 @@ def execute(sc: dict, seed: int) -> dict:
                 v["mode"] = mode
             viols.extend(vs)
         stats["sim_seconds"] = w.clock.wall - w.clock.readings[0] if w.clock.readings else 0.0
+        if w.remote_exec:
+            stats["probe.remote_executor"] = 1
         # de-duplicate by (clause,key) keeping the first
         seen = set()
         uniq = []
